@@ -112,6 +112,7 @@ class Interp(OpsMixin, BuiltinsMixin, StdlibMixin):
         m.state = "running"
         m.env["__name__"] = name
         m.env["__file__"] = path
+        m.env["__package__"] = name if os.path.basename(path) == "__init__.py" else name.rpartition(".")[0]
         # parent packages first (python imports them)
         if "." in name:
             self.load_module(name.rsplit(".", 1)[0])
@@ -291,7 +292,9 @@ class Interp(OpsMixin, BuiltinsMixin, StdlibMixin):
         frame.globals_decl.update(s.names)
 
     def st_Nonlocal(self, s, frame):
-        pass
+        if not hasattr(frame, "nonlocal_decl"):
+            frame.nonlocal_decl = set()
+        frame.nonlocal_decl.update(s.names)
 
     def st_Assert(self, s, frame):
         # `python -O` removes assert statements, test expression and all (self.strip_asserts models that run)
@@ -365,7 +368,9 @@ class Interp(OpsMixin, BuiltinsMixin, StdlibMixin):
                 v = m.env[a.name]
             else:
                 sub = self.load_module(modname + "." + a.name)
-                if sub.external:
+                if sub.external and isinstance(m.env.get("__getattr__"), FuncVal):
+                    v = self.call_function(m.env["__getattr__"], [a.name], {}, s, frame)       # PEP 562
+                elif sub.external:
                     self.event("import-unresolved", module=modname, name=a.name, where=frame.where(s))
                     v = Unknown("unresolved import %s.%s" % (modname, a.name))
                 else:
@@ -462,6 +467,9 @@ class Interp(OpsMixin, BuiltinsMixin, StdlibMixin):
             if k.arg == "metaclass":
                 meta = self.eval(k.value, frame)
         cls = ClassVal(s.name, frame.module, bases, node=s, metaclass=meta)
+        if not hasattr(self, "all_classes"):
+            self.all_classes = []
+        self.all_classes.append(cls)
         if meta is None:
             for b in bases:
                 if isinstance(b, ClassVal) and b.metaclass is not None:
@@ -488,6 +496,13 @@ class Interp(OpsMixin, BuiltinsMixin, StdlibMixin):
             self.finish_stdlib_class(cls, std_kind, s, ns, frame)
         if cls.metaclass is not None and isinstance(cls.metaclass, ClassVal):
             cls.injected = self.run_metaclass(cls.metaclass, cls, s, bases, ns, frame)
+        # type.__new__ tells every object in the namespace that wants to know under which name, in which class, it was stored
+        # (after the metaclass has run: the class the name is bound to is the one that counts)
+        for key_, val_ in list(ns.items()) + [kv for kv in cls.injected.items() if kv[0] not in ns]:
+            if isinstance(val_, Instance) and isinstance(val_.cls, ClassVal):
+                sn, snowner = val_.cls.lookup("__set_name__")
+                if isinstance(sn, FuncVal):
+                    self.call_function(sn, [val_, cls, key_], {}, s, frame)
         # __init_subclass__ of the nearest base that has one gets the new class and the class keywords
         ckw = {k.arg: self.eval(k.value, frame) for k in s.keywords if k.arg not in (None, "metaclass")}
         for b in cls.mro()[1:]:
@@ -666,6 +681,22 @@ class Interp(OpsMixin, BuiltinsMixin, StdlibMixin):
             self.assign(t.value, v, frame)
 
     def bind_name(self, name, v, frame):
+        if name in getattr(frame, "nonlocal_decl", ()):
+            # `nonlocal name`: the binding of the nearest enclosing function that has it
+            if getattr(self, "summarising", 0) and (not self.loading or self.exploring):
+                # one evaluation of a loop body stands for all its iterations by forgetting what the body assigns -- which it
+                # reads off the body's own statements; state a called function keeps in an enclosing scope is outside that
+                raise AnalysisError("unmodelled-closure-state", "a loop whose trip count is not known changes `nonlocal %s` through a call at %s"
+                                    % (name, frame.where()))
+            p = frame.parent
+            while p is not None:
+                if name in p.locals:
+                    if not self.loading or self.exploring:
+                        self.journal.append(("attr", p.locals, name, p.locals.get(name, _ABSENT)))
+                    p.locals[name] = v
+                    return
+                p = p.parent
+            raise AnalysisError("unsupported-syntax", "nonlocal %s without an enclosing binding at %s" % (name, frame.where()))
         if frame.cls_ns is not None:
             frame.cls_ns[name] = v
         elif frame.func is None or name in frame.globals_decl:
@@ -726,6 +757,13 @@ class Interp(OpsMixin, BuiltinsMixin, StdlibMixin):
                 rest(ctx)
             finally:
                 self.run_exit_stack(ctx, item.context_expr, frame)
+            return
+        if isinstance(ctx, SuppressVal):
+            try:
+                rest(None)
+            except PyRaise as e:
+                if not self.exception_is(e, tuple(ctx.classes)):
+                    raise
             return
         if isinstance(ctx, Instance) and isinstance(ctx.cls.lookup("__exit__")[0], FuncVal):
             enter = ctx.cls.lookup("__enter__")[0]
@@ -831,6 +869,9 @@ class Interp(OpsMixin, BuiltinsMixin, StdlibMixin):
         if h.type is None:
             return True
         t = self.eval(h.type, frame)
+        return self.exception_is(e, t)
+
+    def exception_is(self, e, t):
         types = list(t) if isinstance(t, tuple) else [t]
         ec = e.exc_class()
         for ty in types:
@@ -976,8 +1017,12 @@ class Interp(OpsMixin, BuiltinsMixin, StdlibMixin):
         depth = getattr(frame, "loop_depth", 0)
         frame.loop_depth = depth + 1
         self.loop_stack.append(loop_id)
+        self.summarising = getattr(self, "summarising", 0) + 1
         try:
-            self.exec_block(s.body, frame)
+            try:
+                self.exec_block(s.body, frame)
+            finally:
+                self.summarising -= 1
         except _Break:
             exit_kind = "break"
         except _Continue:
@@ -1142,6 +1187,18 @@ class Interp(OpsMixin, BuiltinsMixin, StdlibMixin):
     def call_function(self, f, args, kwargs, node, frame):
         if len(self.callstack) > self.MAX_DEPTH:
             raise AnalysisError("call-depth", f.qualname)
+        self._calls = getattr(self, "_calls", 0) + 1
+        if self._calls & 0x3FF == 0:
+            import time as _time
+            if getattr(self, "deadline", None) is None:
+                lim = float(os.environ.get("PYSCSI_SA_TIME_LIMIT", "600"))
+                self.deadline = _time.time() + lim
+                from . import values as _values
+                _values.DEADLINE[0] = self.deadline
+            if _time.time() > self.deadline:
+                # a run that does not come to an end is not a verdict (symbolic terms that keep growing, a path space that
+                # does not close): refuse
+                raise AnalysisError("time-limit", "the analysis did not finish within its time budget (in %s)" % f.qualname)
         depth = sum(1 for q, _ in self.callstack if q == f.qualname)
         marks = self.rec_marks.setdefault(f.qualname, [])
         # a recursive call made with no undetermined branch taken since the previous entry of the same function continues
@@ -1236,12 +1293,25 @@ class Interp(OpsMixin, BuiltinsMixin, StdlibMixin):
             self.callstack.pop()
             marks.pop()
 
-    def is_immutable_value(self, v):
+    def is_immutable_value(self, v, _depth=0):
         v = norm_int(v)
         if v is None or isinstance(v, (bool, int, float, str, bytes, Sym, SymStr, frozenset, range, slice)):
             return True
         if isinstance(v, tuple):
             return all(self.is_immutable_value(x) for x in v)
+        if isinstance(v, (FuncVal, BoundMethod)) and _depth < 3:
+            # a function is a constant unless it carries state: a closure over something that can change, a `nonlocal`
+            # it rebinds, attributes stored on it
+            f = v.func if isinstance(v, BoundMethod) else v
+            if isinstance(v, BoundMethod) and not self.is_immutable_value(v.self_val, _depth + 1):
+                return False
+            if getattr(f, "fattrs", None) or any(isinstance(n, ast.Nonlocal) for n in ast.walk(f.node)):
+                return False
+            cl = getattr(f, "closure", None)
+            if cl is not None and getattr(cl, "func", None) is not None:
+                free = set(n.id for n in ast.walk(f.node) if isinstance(n, ast.Name))
+                return all(self.is_immutable_value(x, _depth + 1) for k, x in cl.locals.items() if k in free and x is not v)
+            return True
         return False
 
     def memo_key(self, v):
@@ -1296,6 +1366,10 @@ class Interp(OpsMixin, BuiltinsMixin, StdlibMixin):
         r = self.stdlib_instantiate(cls, args, kwargs, node, frame)
         if r is not _NO:
             return r
+        data_base = next((c.name for c in cls.mro() if c.builtin and c.name in ("bytearray", "bytes", "dict", "list", "int", "str", "tuple", "set", "frozenset", "float")), None)
+        if data_base is not None and not cls.builtin:
+            # an instance of such a class *is* a bytearray / dict / ...: the model has no such objects
+            raise AnalysisError("unmodelled-builtin", "instance of %s, a subclass of %s, at %s" % (cls.name, data_base, frame.where(node) if frame else "?"))
         inst = Instance(cls, tuple(args))
         inst.import_time = bool(self.loading and not self.exploring)
         init, owner = cls.lookup("__init__")
